@@ -117,6 +117,9 @@ def generate(prop, rng, tier):
         if t == 'alias':
             op['j'] = rng.randint(0, 1)
         if t == 'reject_in':
+            # (an element of a space that differs only in weighting, dtype
+            # ... CAN be converted to a domain element and is accepted: near
+            # misses are for `out` only)
             op['kind'] = rng.choice(['wrong_space', 'string', 'wrong_shape'])
         if t == 'raw':
             # input that is not an element but can be converted to one
@@ -125,7 +128,9 @@ def generate(prop, rng, tier):
             op['path'] = rng.choice(['oop', 'ip'])
             op['fill'] = rng.choice(GARBAGE)
         if t == 'reject_out':
-            op['kind'] = rng.choice(['wrong_space', 'ndarray'])
+            op['kind'] = rng.choice(['wrong_space', 'ndarray', 'near_miss',
+                                     'near_miss'])
+            op['variant'] = rng.randrange(8)
         ops.append(op)
     if c10 and rng.random() < 0.2:
         # aliased call on an element the operator itself holds (translation,
@@ -603,7 +608,7 @@ class Run(object):
     def do_reject_in(self, o):
         op = self.op
         od = R.odl()
-        bad = _bad_input(op.domain, o['kind'])
+        bad = _bad_input(op.domain, o['kind'], o.get('variant', 0))
         if bad is None:
             raise Reject('no bad input of this kind')
         r = None
@@ -643,36 +648,65 @@ class Run(object):
         good = _try(lambda: op.range.element())
         if not SP.is_elem(good):
             raise Reject('range without elements')
+        bads = []
         if o['kind'] == 'ndarray':
             arrs = elem_arrays(good)
             if len(arrs) != 1:
                 raise Reject('no single array')
-            bad = np.array(arrs[0], copy=True)
-            fill_garbage(bad, o['fill'], 1)
-            before = bad.copy()
+            bads.append(np.array(arrs[0], copy=True))
+        elif o['kind'] == 'near_miss':
+            # every distinct near-miss space (at most 4), starting with the
+            # drawn variant
+            seen = []
+            for v in range(8):
+                sp = _near_miss_space(op.range, (o.get('variant', 0) + v) % 8)
+                if sp is None or any(_same_space(sp, q) for q in seen):
+                    continue
+                seen.append(sp)
+                try:
+                    with seams.allocator('zero'):
+                        bads.append(sp.element())
+                except Exception:
+                    continue
+                if len(bads) >= 4:
+                    break
+            if not bads:
+                raise Reject('no near-miss space')
         else:
             n = sum(a.size for a in elem_arrays(good))
-            bad = od.rn(n + 1).element()
-            fill_elem(bad, o['fill'], 1)
-            before = bad.asarray().copy()
+            bads.append(od.rn(n + 1).element())
+
+        def flat(b):
+            return np.concatenate([np.ravel(a).astype(complex)
+                                   for a in elem_arrays(b)] or [np.zeros(0)])
+
         snapx = elem_snapshot(x) if SP.is_elem(x) else None
-        try:
-            op(x, out=bad)
-        except od.OpRangeError:
-            self.ctx.probe('reject-out-' + o['kind'])
-        except Exception as e:
-            self.viol('reject-out/' + type(e).__name__,
-                      'out of kind {} raised {} instead of OpRangeError: {}'
-                      ''.format(o['kind'], type(e).__name__, str(e)[:120]))
-        else:
-            self.viol('reject-out/accepted',
-                      'out of kind {} was accepted'.format(o['kind']))
-        after = bad if isinstance(bad, np.ndarray) else bad.asarray()
-        if before.tobytes() != np.asarray(after).tobytes():
-            self.viol('reject-out/written', 'rejected out was written to')
-        if snapx is not None and not snapshot_equal_bits(snapx, x):
-            self.viol('reject-out/x-modified', 'x modified by a rejected call')
-        self.ctx.event('reject_out', o['kind'])
+        for bad in bads:
+            if isinstance(bad, np.ndarray):
+                fill_garbage(bad, o['fill'], 1)
+            else:
+                fill_elem(bad, o['fill'], 1)
+            before = flat(bad).copy()
+            what = o['kind'] if isinstance(bad, np.ndarray) else \
+                '{} ({!r:.50})'.format(o['kind'], bad.space)
+            try:
+                op(x, out=bad)
+            except od.OpRangeError:
+                self.ctx.probe('reject-out-' + o['kind'])
+            except Exception as e:
+                self.viol('reject-out/' + type(e).__name__,
+                          'out of kind {} raised {} instead of OpRangeError: '
+                          '{}'.format(what, type(e).__name__, str(e)[:120]))
+            else:
+                self.viol('reject-out/accepted',
+                          'out of kind {} was accepted'.format(what))
+            if before.tobytes() != flat(bad).tobytes():
+                self.viol('reject-out/written',
+                          'rejected out ({}) was written to'.format(what))
+            if snapx is not None and not snapshot_equal_bits(snapx, x):
+                self.viol('reject-out/x-modified',
+                          'x modified by a rejected call')
+        self.ctx.event('reject_out', o['kind'], len(bads))
 
     def do_scribble(self, o):
         n = 0
@@ -755,10 +789,95 @@ def _dig(y):
     return repr(y)
 
 
-def _bad_input(domain, kind):
+def _near_miss_space(space, variant):
+    """A space that differs from `space` in one respect only (one factor of
+    a product space, power vs. heterogeneous, weighting, exponent, extent of
+    the discretized domain): its elements must be rejected like any other
+    non-element, and before anything is written."""
+    od = R.odl()
+    try:
+        if isinstance(space, od.ProductSpace):
+            facs = list(space.spaces)
+            if not facs:
+                return None
+            kw = {}
+            if variant % 4 == 0 and len(facs) >= 2 and not space.is_power_space:
+                cand = od.ProductSpace(facs[0], len(facs))     # power twin
+            elif variant % 4 == 1 and len(facs) >= 2 and space.is_power_space:
+                other = _near_miss_space(facs[-1], variant // 4) or od.rn(2)
+                cand = od.ProductSpace(*(facs[:-1] + [other]))
+            elif variant % 4 == 2:
+                cand = od.ProductSpace(*facs, exponent=1.5)
+            else:
+                other = _near_miss_space(facs[0], variant // 4)
+                if other is None:
+                    return None
+                cand = od.ProductSpace(*([other] + facs[1:]))
+        elif isinstance(space, od.DiscretizedSpace):
+            if variant % 2 == 0:
+                cand = od.uniform_discr(space.min_pt, space.max_pt + 1.0,
+                                        space.shape, dtype=space.dtype)
+            else:
+                cand = space.tensor_space if hasattr(space, 'tensor_space') \
+                    else od.tensor_space(space.shape, dtype=space.dtype)
+        elif hasattr(space, 'shape') and hasattr(space, 'dtype'):
+            if variant % 3 == 0:
+                cand = od.tensor_space(space.shape, dtype=space.dtype,
+                                       weighting=3.0)
+            elif variant % 3 == 1:
+                cand = od.tensor_space(space.shape, dtype=space.dtype,
+                                       exponent=1.5)
+            else:
+                dt = np.dtype(space.dtype)
+                other = {'f': 'complex128', 'c': 'float64'}.get(dt.kind,
+                                                                 'float64')
+                cand = od.tensor_space(space.shape, dtype=other)
+        else:
+            return None
+        if _same_space(cand, space):
+            return None
+        return cand
+    except Exception:
+        return None
+
+
+def _same_space(a, b):
+    """Structural equality of two spaces, independent of their own __eq__
+    (which is part of what is under test)."""
+    od = R.odl()
+    if type(a) is not type(b):
+        return False
+    if isinstance(a, od.ProductSpace):
+        return (len(a) == len(b) and
+                getattr(a, 'exponent', None) == getattr(b, 'exponent', None)
+                and repr(getattr(a, 'weighting', None)) ==
+                repr(getattr(b, 'weighting', None)) and
+                all(_same_space(p, q) for p, q in zip(a.spaces, b.spaces)))
+    keys = ('shape', 'dtype', 'exponent')
+    if any(getattr(a, k, None) != getattr(b, k, None) for k in keys):
+        return False
+    if repr(getattr(a, 'weighting', None)) != repr(getattr(b, 'weighting',
+                                                           None)):
+        return False
+    for k in ('min_pt', 'max_pt'):
+        if hasattr(a, k) and not np.array_equal(getattr(a, k),
+                                                getattr(b, k)):
+            return False
+    return True
+
+
+def _bad_input(domain, kind, variant=0):
     od = R.odl()
     if kind == 'string':
         return 'not an element'
+    if kind == 'near_miss':
+        sp = _near_miss_space(domain, variant)
+        if sp is None:
+            return None
+        try:
+            return sp.one()
+        except Exception:
+            return None
     try:
         good = domain.element()
     except Exception:
